@@ -819,6 +819,11 @@ std::vector<double> Minimization::minimize(std::vector<std::vector<double>>& pp,
 {
 	const int NMAX	  = 5000;
 	const double TINY = 1.0e-10;
+	if(pp.empty())
+	{
+		std::cerr << "Error in libphysica::Minimization::minimize(): The simplex has no points." << std::endl;
+		std::exit(EXIT_FAILURE);
+	}
 	mpts			  = pp.size();		// rows
 	ndim			  = pp[0].size();	// columns
 	std::vector<double> psum(ndim), pmin(ndim), x(ndim);
